@@ -224,3 +224,9 @@ package syncer
 //@ func (*Syncer).syncLoop props C11
 //@   nopanic divzero,bounds
 //@   requires s != nil && s.cm != nil && s.log != nil && ctx != nil
+//
+// The same thin arithmetic/index safety for the peer loop of Run (candidate lists come from the
+// peer store and from peers' ShareNodes answers).
+//@ func (*Syncer).peerLoop props C11
+//@   nopanic divzero,bounds
+//@   requires s != nil && s.cm != nil && s.log != nil && ctx != nil
